@@ -24,6 +24,7 @@ static uint64_t rh[MAXT]; static int pts[MAXT];
 static uint8_t *acc_r, *acc_w; static size_t shsz, dsz_, bsz_;
 static int PB = -1, preempts;           /* preemption bound, -1 = unbounded */
 static int cross_thread;                /* a thread touched another thread's arena */
+static int points_overflow;             /* an execution had more scheduling points than the explorer records */
 static char cross_msg[200];
 #define ARENA 8192
 static char arena[MAXT][ARENA] __attribute__((aligned(64))); static size_t apos[MAXT];
@@ -42,7 +43,7 @@ static void point(void) {
     if (!finished[cur]) en[n++] = cur;
     for (int t = 0; t < NT; t++) if (t != cur && !finished[t]) en[n++] = t;
     if (n == 0) return;
-    if (step >= MAXP) { fprintf(stderr, "e3: too many scheduling points\n"); abort(); }
+    if (step >= MAXP) { points_overflow = 1; return; }     /* keep running without further switching; the race oracle still sees every access */
     int running_enabled = !finished[cur];
     int navail = n;
     if (PB >= 0 && running_enabled && preempts >= PB) navail = 1;      /* no preemption budget left: keep running */
@@ -101,7 +102,7 @@ static void threads_stop(void) { quit_threads = 1; for (int t = 0; t < threads_u
 static uint8_t *snap;
 static void run_once(void) {
     sec_load(snap);
-    memset(acc_r, 0, shsz); memset(acc_w, 0, shsz); step = 0; nfin = 0; preempts = 0; cross_thread = 0;
+    memset(acc_r, 0, shsz); memset(acc_w, 0, shsz); step = 0; nfin = 0; preempts = 0; cross_thread = 0; points_overflow = 0;
     for (int t = 0; t < NT; t++) { finished[t] = 0; rh[t] = 0; pts[t] = 0; apos[t] = 0; tr[t] = 0; }
     if (!threads_up) threads_start();
     cur = 0; active = 1; sem_post(&baton[0]); while (sem_wait(&alldone) != 0) { } active = 0;
@@ -164,6 +165,7 @@ static void explore(struct outcome *o, long max_states) {
             if (!o->first[0]) { size_t l = 0; l += (size_t)snprintf(o->first, sizeof o->first, "case %d %d ", HARNESS, PB); int last = step; while (last > 0 && choices[last - 1] == 0) last--; for (int i = 0; i < last && l < sizeof o->first - 12; i++) l += (size_t)snprintf(o->first + l, sizeof o->first - l, "%s%d", i ? "," : "", choices[i]); snprintf(o->firstmsg, sizeof o->firstmsg, "%s", msg); }
             break;       /* stop at the first violation: with a race the state space explodes */
         }
+        if (points_overflow) { o->capped = 1; break; }
         if (o->capped) break;
     }
     while (top) free(stkp[--top].c);
